@@ -328,6 +328,47 @@ pub fn run(tier: Tier, seed: u64) -> i32 {
     }
     report.count("seam_interleave_shapes", seam);
 
+    // ---------------- account names are peer-supplied text: every constructor answers Ok or Err ----------------
+    {
+        use std::convert::TryFrom;
+        use wow_srp::normalized_string::NormalizedString as NS;
+        let mut names: Vec<String> = vec!["".into(), " ".into(), "\0".into(), "A\0".into(), "\u{7f}".into(), "é".into(), "ééééééééé".into(), "€€€€€€".into(), "😀😀😀😀😀".into(), "a😀".into(), "aaaaaaaaaaaaaaaé".into(), "éaaaaaaaaaaaaaaa".into(), "aaaaaaaaaaaaaaaaé".into(), "\u{feff}alice".into(), "ａｌｉｃｅ".into(), "ß".into(), "ǅ".into(), "İ".into()];
+        for l in [15usize, 16, 17, 31, 32, 33, 255, 256, 257, 272, 65_535, 65_536, 65_537] {
+            names.push("x".repeat(l));
+            names.push("é".repeat(l / 2));
+            let mut s = "y".repeat(l.saturating_sub(1));
+            s.push('€');
+            names.push(s);
+        }
+        for cp in [0x80u32, 0xFF, 0x100, 0x141, 0x7FF, 0x800, 0xFFFF, 0x1_0000, 0x10_FFFF] {
+            if let Some(c) = char::from_u32(cp) {
+                for l in 1..=17usize {
+                    names.push(std::iter::repeat(c).take(l).collect());
+                    let mut s = "b".repeat(l - 1);
+                    s.push(c);
+                    names.push(s);
+                }
+            }
+        }
+        let mut n_names = 0u64;
+        for nm in &names {
+            let rs: [(&str, Result<(), String>); 5] = [
+                ("new", catch(|| { let _ = NS::new(nm.as_str()); })),
+                ("from_str", catch(|| { let _ = NS::from_str(nm.as_str()); })),
+                ("from_string", catch(|| { let _ = NS::from_string(nm.clone()); })),
+                ("TryFrom<&str>", catch(|| { let _ = NS::try_from(nm.as_str()); })),
+                ("TryFrom<String>", catch(|| { let _ = NS::try_from(nm.clone()); })),
+            ];
+            for (ctor, r) in rs {
+                n_names += 1;
+                if let Err(m) = r {
+                    viol(&report, "name", "constructor-panic", json!({"constructor": ctor, "name_utf8_hex": hex(&nm.as_bytes()[..nm.len().min(64)]), "name_bytes": nm.len(), "name_chars": nm.chars().count()}), format!("NormalizedString::{ctor} panicked on a {}-byte / {}-character name: {m}", nm.len(), nm.chars().count()));
+                }
+            }
+        }
+        report.count("hostile_name_constructor_calls", n_names);
+    }
+
     // ---------------- world login: arbitrary proofs and seeds ----------------
     let mut world = 0u64;
     // the peer chooses its seed knowing ours: every pair of {0, 1, 2^32-1, ...} incl. the peer ECHOING our own seed
